@@ -91,8 +91,8 @@ func c04run(out *rec.Out, c c04case, rng *rec.Rng, stats map[string]int) {
 	for k, v := range vars {
 		anyVars[k] = v
 	}
-	if rng.Intn(2) == 0 {
-		g.ShuffleDecl(rng.Intn)
+	if sh := rng.Fork(); sh.Intn(2) == 0 { // forked stream: one draw of the case's stream whatever the graph size
+		g.ShuffleDecl(sh.Intn)
 		stats["shuffled_declaration_order"]++
 	}
 	in, defs, err := eng.Start(g.XML(), anyVars)
